@@ -124,6 +124,145 @@ func TestWriteRegress(t *testing.T) {
 	}
 }
 
+// TestWriteRegress2 (development aid, C14_WRITE_REGRESS2=<dir>) writes replay cases for the findings of the second review
+// round: hand-made minimal programs (the replay files in the repository add programs the generator found to them).
+func TestWriteRegress2(t *testing.T) {
+	dir := os.Getenv("C14_WRITE_REGRESS2")
+	if dir == "" {
+		t.Skip("C14_WRITE_REGRESS2 not set")
+	}
+	a0 := vr("a0")
+	iarg := func(v int64) []Arg { return []Arg{{T: "int", I: v}} }
+	ip := []Field{{Name: "a0", Type: "int"}}
+	lp := []Field{{Name: "p0", Type: "int"}}
+	ir := []Field{{Type: "int"}}
+	def := func(n string, e *Node) *Node { return &Node{K: "define", S: n, A: []*Node{e}} }
+	asg := func(op string, l, r *Node) *Node { return &Node{K: "assign", S: op, A: []*Node{l, r}} }
+	call := func(f string, a ...*Node) *Node { return &Node{K: "call", S: f, A: a} }
+	idx := func(x, i *Node) *Node { return &Node{K: "index", A: []*Node{x, i}} }
+	fld := func(x *Node, f string) *Node { return &Node{K: "field", S: f, A: []*Node{x}} }
+	v1, v2, v3 := vr("v1"), vr("v2"), vr("v3")
+	g9 := []Global{{Name: tickCtr, Type: "int"}}
+	t1 := []StructDef{{Name: "T0", Fields: []Field{{"a", "int"}, {"T1", "T1"}}, Emb: "T1"}, {Name: "T1", Fields: []Field{{"x", "int"}, {"y", "int"}}}}
+	t1n := []StructDef{{Name: "T0", Fields: []Field{{"a", "int"}, {"n", "T1"}}}, {Name: "T1", Fields: []Field{{"x", "int"}, {"y", "int"}}}}
+	lib := []Func{
+		{Name: "L0", Params: lp, Results: ir, Body: []*Node{retN(bin("+", vr("p0"), ilit(1000)))}},
+		{Name: "V0", AsVar: true, Alias: "L0", Params: lp, Results: ir},
+		{Name: "V1", AsVar: true, Params: lp, Results: ir, Body: []*Node{retN(bin("*", vr("p0"), ilit(3)))}},
+		{Name: "V2", AsVar: true, ViaInit: true, Alias: "L0", Params: lp, Results: ir},
+		{Name: "W0", AsVar: true, Results: ir, Body: []*Node{retN(ilit(100))}},
+		{Name: "W1", AsVar: true, ViaInit: true, Results: ir, Body: []*Node{retN(ilit(7))}},
+	}
+	g := &gen{pr: &Prog{}, tickbFn: true, tickmFn: true, tickfFn: true, tickwFn: true, ticktFn: true, tickaFn: true}
+	helpers := append([]Func{tickFunc()}, g.extraFuncs()...)
+	fs := g.pr.FuncStructs
+	fsb := append(append([]StructDef{}, fs...), StructDef{Name: "TF1", Fields: []Field{{"n", "int"}, {"f", bytesFnT}}})
+	b2u := func(c *Node) *Node {
+		return &Node{K: "conv", T: "int", A: []*Node{call(convertAlias+".BytesToUint8", c)}}
+	}
+	fold := func(x *Node) *Node { return bin("+", bin("*", fld(x, "x"), ilit(100)), fld(x, "y")) }
+	afold := func(x *Node) *Node {
+		return bin("+", bin("+", bin("*", idx(x, ilit(0)), ilit(10000)), bin("*", idx(x, ilit(1)), ilit(100))), idx(x, ilit(2)))
+	}
+	with := func(fn []Func, extra ...Func) []Func { return append(append([]Func{}, fn...), extra...) }
+	main := func(body ...*Node) Func { return Func{Name: "Main", Params: ip, Results: ir, Body: body} }
+	f1 := func(body ...*Node) Func { return Func{Name: "F1", Params: ip, Results: ir, Body: body} }
+	f2 := func(body ...*Node) Func { return Func{Name: "F2", Params: ip, Results: ir, Body: body} }
+	calls := func(n int) []Call {
+		var out []Call
+		for f := 0; f < n; f++ {
+			out = append(out, Call{f, iarg(5)}, Call{f, iarg(0)})
+		}
+		return out
+	}
+	t1lit := func(x, y int64) *Node { return stl("T1", "x", ilit(x), "y", ilit(y)) }
+	alit := func(v ...int64) *Node {
+		n := &Node{K: "alit", T: "[3]int"}
+		for _, x := range v {
+			n.A = append(n.A, ilit(x))
+		}
+		return n
+	}
+	progs := map[string][]Prog{
+		kImportedFuncVar: {
+			{Lib: lib, Funcs: []Func{
+				main(retN(bin("+", call("lib.V0", a0), bin("*", call("lib.V1", a0), ilit(10000))))),
+				f1(retN(bin("+", call("lib.W0"), a0))),
+				f2(retN(bin("+", call("lib.V2", a0), bin("*", call("lib.W1"), ilit(10000))))),
+			}, Calls: calls(3)},
+			{Lib: lib[:2], Funcs: []Func{main(def("v1", call("lib.V0", a0)), retN(v1))}, Calls: calls(1)},
+		},
+		kFuncVarFile: {
+			{File2Name: "fvars.go", Funcs: []Func{
+				main(retN(bin("+", call("hv0", a0), bin("*", call("hv2", a0), ilit(10000))))),
+				f1(retN(bin("+", call("hv1"), a0))),
+				f2(retN(bin("+", call("hv3", a0), bin("*", call("hv4"), ilit(10000))))),
+				{Name: "f0", Params: ip, Results: ir, Body: []*Node{retN(bin("+", a0, ilit(1000)))}},
+				{Name: "hv0", AsVar: true, File2: true, Alias: "f0", Params: ip, Results: ir},
+				{Name: "hv1", AsVar: true, File2: true, Results: ir, Body: []*Node{retN(ilit(100))}},
+				{Name: "hv2", AsVar: true, File2: true, Params: ip, Results: ir, Body: []*Node{retN(bin("*", a0, ilit(3)))}},
+				{Name: "hv3", AsVar: true, File2: true, ViaInit: true, Alias: "f0", Params: ip, Results: ir},
+				{Name: "hv4", AsVar: true, File2: true, ViaInit: true, Results: ir, Body: []*Node{retN(ilit(7))}},
+			}, Calls: calls(3)},
+		},
+		kInlineArgCall: {
+			{Globals: g9, Structs: t1, FuncStructs: fsb, Funcs: with([]Func{
+				main(def("v1", stl("TF1", "n", ilit(1), "f", vr(tickbName))), def("v2", b2u(call("v1.f"))), retN(bin("+", bin("*", v2, ilit(100)), vr(tickCtr)))),
+				f1(def("v1", stl("T0", "a", a0)), def("v2", b2u(&Node{K: "mcall", S: tickmName, A: []*Node{v1}})), retN(bin("+", bin("*", v2, ilit(100)), vr(tickCtr)))),
+				f2(def("v2", b2u(call("hv0"))), retN(bin("+", bin("*", v2, ilit(100)), vr(tickCtr)))),
+				{Name: "hv0", AsVar: true, Alias: tickbName, Results: []Field{{Type: "[]byte"}}},
+			}, helpers...), Calls: calls(3)},
+		},
+		kFuncValueOrder: {
+			{Globals: g9, Structs: t1, FuncStructs: fsb, Funcs: with([]Func{
+				main(def("v1", call(tickwName+"().f", call(tickName, ilit(7)))), retN(bin("+", v1, a0))),
+				f1(def("v1", call(tickfName+"()", call(tickName, ilit(7)))), retN(bin("+", v1, a0))),
+				f2(def("v1", &Node{K: "slit", T: "[]" + intFuncT, A: []*Node{vr(tfaName), vr(tfbName)}}),
+					def("v2", call("v1["+expr(call(tickName, ilit(1)))+"]", call(tickName, ilit(7)))), retN(bin("+", v2, a0))),
+				{Name: "F3", Params: ip, Results: ir, Body: []*Node{def("v1", call("("+tickfName+"())", call(tickName, ilit(7)))), retN(bin("+", v1, a0))}},
+			}, helpers...), Calls: calls(4)},
+		},
+		kTupleValueVar: {
+			{Globals: append([]Global{{Name: "g0", Type: "[3]int"}, {Name: "g1", Type: "T1"}}, g9...), Structs: t1n, FuncStructs: fsb, Funcs: with([]Func{
+				main(def("v1", t1lit(0, 0)), &Node{K: "tassign", S: "=", N: 2, A: []*Node{v1, fld(v1, "x"), t1lit(1, 2), bin("+", a0, ilit(7))}},
+					def("v2", t1lit(0, 0)), &Node{K: "tassign", S: "=", N: 2, A: []*Node{fld(v2, "x"), v2, ilit(9), t1lit(3, 4)}},
+					retN(bin("+", bin("*", fold(v1), ilit(10000)), fold(v2)))),
+				f1(def("v1", alit()), &Node{K: "tassign", S: "=", N: 2, A: []*Node{v1, idx(v1, ilit(0)), alit(1, 2, 3), bin("+", a0, ilit(7))}},
+					&Node{K: "mret", S: "=", N: 2, A: []*Node{vr("g0"), idx(vr("g0"), ilit(1)), call(tickaName, ilit(7))}},
+					retN(bin("+", bin("*", afold(v1), ilit(1000000)), afold(vr("g0"))))),
+				f2(def("v1", t1lit(0, 0)), &Node{K: "mret", S: "=", N: 2, A: []*Node{v1, fld(v1, "y"), call(ticktName, ilit(7))}},
+					&Node{K: "mret", S: "=", N: 2, A: []*Node{vr("g1"), fld(&Node{K: "paren", A: []*Node{vr("g1")}}, "x"), call(ticktName, ilit(7))}},
+					retN(bin("+", bin("*", fold(v1), ilit(1000000)), fold(vr("g1"))))),
+				{Name: "F3", Params: ip, Results: ir, Body: []*Node{
+					def("v1", &Node{K: "stlit", S: "&", T: "T0"}), def("v2", &Node{K: "stlit", T: "T0"}),
+					{K: "tassign", S: "=", N: 2, A: []*Node{fld(v1, "n"), fld(fld(v1, "n"), "x"), t1lit(1, 2), bin("+", a0, ilit(7))}},
+					{K: "tassign", S: "=", N: 2, A: []*Node{fld(v2, "n"), fld(fld(v2, "n"), "y"), t1lit(3, 4), bin("+", a0, ilit(8))}},
+					retN(bin("+", bin("*", fold(fld(v1, "n")), ilit(10000)), fold(fld(v2, "n"))))}},
+				{Name: "F4", Params: ip, Results: ir, Body: []*Node{
+					{K: "vardecl", S: "v1", T: "[2][3]int"}, {K: "vardecl", S: "v2", T: "[2]T1"},
+					{K: "tassign", S: "=", N: 2, A: []*Node{v1, idx(idx(v1, ilit(1)), bin("&", a0, ilit(1))), &Node{K: "alit", T: "[2][3]int", A: []*Node{alit(1, 2, 3), alit(4, 5, 6)}}, ilit(77)}},
+					{K: "tassign", S: "=", N: 2, A: []*Node{v2, fld(idx(v2, ilit(1)), "x"), &Node{K: "alit", T: "[2]T1", A: []*Node{t1lit(1, 2), t1lit(3, 4)}}, ilit(88)}},
+					def("v3", bin("+", afold(idx(v1, ilit(1))), bin("*", fold(idx(v2, ilit(1))), ilit(1000000)))),
+					retN(v3)}},
+			}, helpers...), Calls: calls(5)},
+		},
+	}
+	_ = asg
+	for key, ps := range progs {
+		c := Case{Progs: ps}
+		if err := checkCase(c, nil); err != nil {
+			t.Logf("%s: the case does not hold on this tree: %v", key, firstLine(err.Error()))
+		} else {
+			t.Logf("%s: holds", key)
+		}
+		raw, _ := json.Marshal(c)
+		env, _ := json.MarshalIndent(map[string]any{"property": "C14", "check": "diff", "case": json.RawMessage(raw)}, "", " ")
+		if err := os.WriteFile(filepath.Join(dir, key+".json"), env, 0o644); err != nil {
+			t.Fatal(err)
+		}
+	}
+}
+
 func firstLine(s string) string {
 	for i := range s {
 		if s[i] == '\n' {
